@@ -3,8 +3,9 @@
    generated code is equal to the model's dataset."
 
    State: a numeric frame under construction (rows of cells), one action per cell
-   (AddCell) / per completed row (EndRow).  Cells are exact decimals m * 10^e or the
-   missing value (NaN).  The law is the identity:  ReadBack(Written(frame)) = frame,
+   (AddCell) / per completed row (EndRow).  Cells are doubles, named by an exact rational
+   n/d * 10^e (the nearest double is meant), by a name, or the missing value (NaN); equality
+   is exact equality of doubles - that is what the property states.  The law is the identity:  ReadBack(Written(frame)) = frame,
    cell by cell, NaN at the same places, same column names and order, same number of rows.
    TLC enumerates every frame of the bound and emits it; the driver adds the ID and TIME
    columns a NONMEM dataset needs (rendering), writes the model (write_model / write_csv)
@@ -15,10 +16,21 @@ CONSTANTS MaxRows, MaxCols, Profile, EmitMod, EmitSel
 VARIABLES phase, ncols, rows, cur
 vars == <<phase, ncols, rows, cur>>
 
-Num(m, e) == [k |-> "num", m |-> m, e |-> e]
-NaN == [k |-> "nan", m |-> 0, e |-> 0]
-Vals == {Num(0, 0), Num(1, 0), Num(-1, 0), Num(5, -1), Num(-225, -2), NaN}
-        \cup (IF Profile >= 2 THEN {Num(1, 10), Num(123456789, -4), Num(1, -7), Num(-3, 3)} ELSE {})
+\* a cell is  n/d * 10^e  rounded to the nearest double (k = "num"), a named double that has no small exact
+\* description (k = "named": the driver holds the table of names), or the missing value (k = "nan").
+\* TLC integers are 32-bit, hence rationals and names instead of binary fractions.
+Rat(n, d, e) == [k |-> "num", n |-> n, d |-> d, e |-> e, name |-> ""]
+Num(m, e) == Rat(m, 1, e)
+Named(x) == [k |-> "named", n |-> 0, d |-> 1, e |-> 0, name |-> x]
+NaN == [k |-> "nan", n |-> 0, d |-> 1, e |-> 0, name |-> ""]
+\* short decimals, values that need all 17 significant digits of a double, values that collide with tokens
+\* of the file format (-99 is the missing-data token, 0 the NULL value)
+Vals == {Num(0, 0), Num(1, 0), Num(-1, 0), Num(5, -1), NaN,
+         Rat(1, 3, 0), Named("0.1+0.2"), Rat(2, 3, -5), Rat(1, 3, 22), Num(-99, 0)}
+        \cup (IF Profile >= 2 THEN {Num(-225, -2), Num(1, 10), Num(123456789, -4), Num(1, -7), Num(-3, 3), Rat(-2, 7, 0), Rat(22, 7, -100),
+                                    Named("nextafter(1)"), Named("2**53+2"), Named("min subnormal"), Named("-max double"),
+                                    Named("-0.0"), Named("pi*1e-5"), Num(99, 0), Num(-990, -1)}
+              ELSE {})
 
 AddCell(v) == /\ phase = "build" /\ Len(cur) < ncols /\ Len(rows) < MaxRows
               /\ cur' = Append(cur, v) /\ UNCHANGED <<phase, ncols, rows>>
@@ -40,7 +52,7 @@ RoundTrip == Done => ReadBack(Written) = rows /\ Len(ReadBack(Written)) = Len(ro
 TypeOK == Len(rows) <= MaxRows /\ Len(cur) <= ncols
 
 RECURSIVE HashR(_, _)
-HashR(s, h) == IF s = <<>> THEN h ELSE HashR(Tail(s), (h * 31 + (Head(s).m % 97) + 7 * Head(s).e + (IF Head(s).k = "nan" THEN 50 ELSE 0) + 200) % 1000003)
+HashR(s, h) == IF s = <<>> THEN h ELSE HashR(Tail(s), (h * 31 + (Head(s).n % 97) + 5 * Head(s).d + 7 * Head(s).e + (IF Head(s).k = "nan" THEN 50 ELSE 0) + 3 * Len(Head(s).name) + 200) % 1000003)
 RECURSIVE HashF(_, _)
 HashF(t, h) == IF t = <<>> THEN h ELSE HashF(Tail(t), HashR(Head(t), h))
 Selected == HashF(rows, ncols) % EmitMod = EmitSel
